@@ -107,7 +107,8 @@ def part_unit_sum(r, case):
                         ge, gc = a.equal(b), a.allclose(b, 1e-5, 1e-8)
                     we, wc = bool(torch.equal(A, B)), bool(torch.allclose(A, B, rtol=1e-5, atol=1e-8))
                     if any('type mismatch' in str(x.message) for x in wl):
-                        r.excl['unit-sum pair is ill-typed (unify warning)'] += 1
+                        # these pairs are well typed (a size-1 dimension is a unit however it is written): a warning is a finding
+                        r.bad('type-mismatch-warning', 'indices.Axis.unify', 'unit-sum', '%s default %r  vs  %s default %r: the library reports an index type mismatch' % (na, da, nb, db), case, key)
                         continue
                     if bool(ge) != we or bool(gc) != wc:
                         r.bad('equal-wrong' if bool(ge) != we else 'allclose-wrong', 'indices.PatternedTensor.equal', 'unit-sum', '%s %r default %r  vs  %s %r default %r: equal=%r allclose=%r, torch %r %r' % (na, va, da, nb, vb, db, ge, gc, we, wc), case, key)
